@@ -77,6 +77,11 @@ def cases(c, chunkings):
                 add(f="hkdf_expand", api="generic", alg=alg, prk=CL.hx(msg(hl)), info=CL.hx(msg(il)), outlen=ol)
                 if alg == "sm3":
                     add(f="hkdf_expand", api="sm3", alg=alg, prk=CL.hx(msg(hl)), info=CL.hx(msg(il)), outlen=ol)
+    # counter KDFs past 256 output blocks (the block counter needs its second octet), HKDF at its maximum of 255 blocks
+    add(f="sm3kdf", api="sm3", z=CL.hx(msg(40)), outlen=8192 + 33, chunks="7")
+    add(f="sm2kdf", api="sm2", z=CL.hx(msg(64)), outlen=8192 + 1)
+    add(f="hkdf_expand", api="generic", alg="sm3", prk=CL.hx(msg(32)), info=CL.hx(msg(3)), outlen=255 * 32)
+    add(f="hkdf_expand", api="sm3", alg="sm3", prk=CL.hx(msg(32)), info=CL.hx(msg(3)), outlen=255 * 32)
     for zl in (1, 32, 64, 65, 100):
         for ol in (1, 31, 32, 33, 64, 255):
             z = msg(zl)
